@@ -88,6 +88,7 @@ def run(ctx):
     wp.warm_up()
     quick = ctx.tier == "quick"
     editcheck.run_histories(ctx, ORACLES, 3000 if quick else 80000)
+    editcheck.run_histories(ctx, ORACLES, 60 if quick else 3000, tag="big", fft="big")
     seeds = [ctx.sub(("trace", i)) for i in range(400 if quick else 10000)]
     res = runner.pmap(trace_task, seeds)
     entries = 0
